@@ -376,14 +376,26 @@ func (h *hrun) drain() {
 	}
 }
 
+// waitFor waits until the bytes received so far satisfy pred, the stream ends, or nothing has satisfied it
+// for 30 s (real seconds outside a bubble; inside one the timer fires once every goroutine is blocked, that
+// is, when both ends wait for each other). Without the bound a storrent that derives other keys than the
+// specification leaves both handshakes waiting for ever on the in-memory pipe.
 func (h *hrun) waitFor(pred func(b []byte) bool) bool {
 	h.mu.Lock()
 	defer h.mu.Unlock()
+	timedOut := false
+	tm := time.AfterFunc(30*time.Second, func() {
+		h.mu.Lock()
+		timedOut = true
+		h.cond.Broadcast()
+		h.mu.Unlock()
+	})
+	defer tm.Stop()
 	for {
 		if pred(h.rbuf) {
 			return true
 		}
-		if h.rdone {
+		if h.rdone || timedOut {
 			return false
 		}
 		h.cond.Wait()
@@ -1472,6 +1484,10 @@ type faultConn struct {
 	kind   string // one of faultKinds
 	wire   []byte // bytes handed to the wire since arming
 	calls  int
+	// concurrent-writer cases: the failing underlying Write announces itself and lingers, so that a second
+	// writer is waiting for the connection's write lock when the failure is reported
+	atFault chan struct{}
+	hold    time.Duration
 }
 
 func (f *faultConn) Write(b []byte) (int, error) {
@@ -1485,6 +1501,14 @@ func (f *faultConn) Write(b []byte) (int, error) {
 		f.fired = true
 		k := f.failAt - len(f.wire)
 		kind := f.kind
+		if f.atFault != nil {
+			close(f.atFault)
+			f.atFault = nil
+			hold := f.hold
+			f.mu.Unlock()
+			time.Sleep(hold)
+			f.mu.Lock()
+		}
 		if kind == "err-nothing" {
 			f.mu.Unlock()
 			return 0, errInjected
@@ -1663,6 +1687,69 @@ func faultCase(c *vk.C, role string, wp sizePattern, failAt int, kind string, rn
 	}
 }
 
+// concurrentFaultCase: a second writer calls Write while the first one is inside the underlying write that
+// fails. The second writer's call begins after the failure has begun, so it must not succeed, and the wire
+// must still decrypt to a prefix of what the first writer wrote.
+func concurrentFaultCase(c *vk.C, role string, failAt int, kind string, rng *rand.Rand) {
+	rs, why := openRef(role, rng)
+	if rs == nil {
+		c.Inconclusive(why)
+		return
+	}
+	defer rs.close()
+	fc := rs.fc
+	at := make(chan struct{})
+	fc.mu.Lock()
+	fc.armed, fc.failAt, fc.kind, fc.atFault, fc.hold = true, failAt, kind, at, 30*time.Millisecond
+	fc.mu.Unlock()
+	data := content(rng.Uint64(), failAt+40000)
+	other := content(rng.Uint64(), 3200)
+	rep := map[string]any{"storrent_role": role, "fail_at": failAt, "fault": kind, "writers": 2}
+	var bN int
+	var bErr error
+	bDone := make(chan struct{})
+	go func() {
+		defer close(bDone)
+		select {
+		case <-at:
+		case <-time.After(20 * time.Second):
+			bErr = errors.New("fault never fired")
+			return
+		}
+		bN, bErr = rs.st.Conn.Write(other)
+	}()
+	aFailed := false
+	for off := 0; off < len(data); {
+		n := 1 + rng.IntN(9000)
+		if n > len(data)-off {
+			n = len(data) - off
+		}
+		m, err := rs.st.Conn.Write(data[off : off+n])
+		off += n
+		if err != nil || m < n {
+			aFailed = true
+			break
+		}
+	}
+	<-bDone
+	c.Count("fault_runs_two_writers", 1)
+	fc.mu.Lock()
+	wire := append([]byte(nil), fc.wire...)
+	fired := fc.fired
+	fc.mu.Unlock()
+	if !fired || !aFailed {
+		c.Inconclusive("two-writer fault did not fire")
+		return
+	}
+	if bErr == nil {
+		c.Violation("fault", "write-after-failure-succeeds second-writer "+kind, fmt.Sprintf("a Write of %d bytes that was called while another writer's underlying write was failing (%s at byte %d) returned (%d, nil)", len(other), kind, failAt, bN), rep)
+	}
+	plain := rs.p.dec.Apply(wire)
+	if len(plain) > len(data) || !bytes.Equal(plain, data[:len(plain)]) {
+		c.Violation("fault", "keystream-ahead-of-wire second-writer "+kind, fmt.Sprintf("%d bytes reached the wire; decrypted with the specified keystream they match the first writer's plaintext only up to offset %d", len(wire), firstDiff(plain, data)), rep)
+	}
+}
+
 var faultKinds = []string{"err-partial", "err-nothing", "short-nil", "timeout-partial", "timeout-nothing"}
 
 func runStream(t *testing.T, r *vk.Run, race bool, base int) {
@@ -1769,6 +1856,9 @@ func runStream(t *testing.T, r *vk.Run, race bool, base int) {
 					}
 					faultCase(c, role, wp, k, kind, rng)
 				}
+			}
+			if k%4 == 1 {
+				concurrentFaultCase(c, role, k, []string{"err-partial", "timeout-partial", "err-nothing"}[k/4%3], rng)
 			}
 			c.FP(vk.Hash64("fault", role, k), true)
 			c.End()
